@@ -25,8 +25,8 @@ def shard(kind, n_cases, n_jobs, timeout=900, **params):
 
 
 def edges_jobs(tier):
-    """The directed edge families of pv/edges.py: 11 families x 4 (quick) or x 60 (thorough) cases."""
-    return shard('edges', 44, 2) if tier == 'quick' else shard('edges', 660, 6)
+    """The directed edge families of pv/edges.py: 20 families x 3 (quick) or x 40 (thorough) cases."""
+    return shard('edges', 60, 3) if tier == 'quick' else shard('edges', 800, 8)
 
 
 def run_cases(job, fn, budget_s=None):
